@@ -8,7 +8,7 @@ import ast
 
 from ..core.absint import Interp, alternatives, pretty
 from ..core.analysis import Analysis, assigned_names, facts
-from ..core.astutil import handler_catches, order_rel, path_templates
+from ..core.astutil import deref, handler_catches, order_rel, path_templates
 from ..core.cfg import decompose_guard
 from ..core.forms import canon
 from ..core.pyrepo import Repo, calls_in, dotted, norm_stmt
@@ -208,13 +208,33 @@ def run(ctx):
                     for e, p, _ in pcfg.guards(n)) for n in stores):
             probs.append(f"entries are recorded without requiring {eq} > {pos} (an entry "
                          f"without '=' or starting with '=' must be ignored)")
+        # what is stored: ret[<key>] = <value> with the key cut from data[pos:eq] (maybe
+        # upper-cased on Windows) and the value from data[eq+1:nxt]; temporaries and
+        # conditional spellings are looked through
         kv = {}
-        for st in ast.walk(pe.node):
-            if isinstance(st, ast.Assign) and dotted(st.targets[0]) in ("key", "value") \
-                    and isinstance(st.value, ast.Subscript):
-                kv.setdefault(dotted(st.targets[0]), norm_stmt(st.value).replace(" ", ""))
-        if kv.get("key") != f"data[{pos}:{eq}]" or kv.get("value") != f"data[{eq}+1:{nxt}]":
-            probs.append(f"key/value slices are {kv}")
+        for n_ in stores:
+            st_ = n_.stmt
+            for role, e_ in (("key", st_.targets[0].slice), ("value", st_.value)):
+                def origins(x, seen=()):
+                    # the expression itself, through `.upper()`, conditional spellings
+                    # and ONE level of single-assignment names at a time
+                    if isinstance(x, ast.IfExp):
+                        return origins(x.body, seen) + origins(x.orelse, seen)
+                    if isinstance(x, ast.Call) and isinstance(x.func, ast.Attribute) \
+                            and x.func.attr in ("upper", "lower", "strip") and not x.args:
+                        return origins(x.func.value, seen)
+                    if isinstance(x, ast.Name) and x.id not in seen:
+                        ds = [a_ for a_ in asg.get(x.id, []) if isinstance(a_, ast.Assign)]
+                        out_ = []
+                        for a_ in ds:
+                            out_ += origins(a_.value, seen + (x.id,))
+                        return out_ or [x]
+                    return [x]
+                sl_ = {norm_stmt(x).replace(" ", "") for x in origins(e_)
+                       if isinstance(x, ast.Subscript) and isinstance(x.slice, ast.Slice)}
+                kv.setdefault(role, set()).update(sl_)
+        if kv.get("key") != {f"data[{pos}:{eq}]"} or kv.get("value") != {f"data[{eq}+1:{nxt}]"}:
+            probs.append(f"key/value slices are { {k: sorted(v) for k, v in kv.items()} }")
     if probs:
         for i, pr in enumerate(probs):
             ctx.fail("C12.R3", f"environ:{i}:{pr[:30]}", pe.file, pe.node.lineno, pe.qual, pr)
@@ -294,18 +314,30 @@ def run(ctx):
     else:
         ctx.fail("C12.R4", "exe-cache", ex.file, ex.node.lineno, ex.qual,
                  f"the exe cache is written elsewhere: {bad}")
-    gi = repo.func("psutil", "Process.exe.guess_it")
-    gcfg = A.cfg(gi)
-    rets = [n for n in gcfg.nodes if n.kind == "return" and dotted(n.stmt.value) == "exe"]
+    # the guess lives in a closure of exe(), in a private method it calls, or inline:
+    # wherever `cmdline()[0]` is turned into an answer, that return is guarded by
+    # isabs, isfile and access(X_OK) on the very value returned
+    cands = [f_ for f_ in repo.all_funcs("psutil") if f_.cls == "Process"
+             and (f_ is ex or (f_.parent is not None and f_.parent is ex)
+                  or any(isinstance(c_.func, ast.Attribute) and c_.func.attr == f_.name
+                         and dotted(c_.func.value) == "self" for c_ in ast.walk(ex.node)
+                         if isinstance(c_, ast.Call)))
+             and any(isinstance(c_, ast.Call) and isinstance(c_.func, ast.Attribute)
+                     and c_.func.attr == "cmdline" for c_ in ast.walk(f_.node))]
     gok = False
-    for n in rets:
-        conds = []
-        for e, p, _ in gcfg.guards(n):
-            for a, t in decompose_guard(e, p):
-                conds.append((norm_stmt(a).replace(" ", ""), t))
-        if {("os.path.isabs(exe)", True), ("os.path.isfile(exe)", True),
-                ("os.access(exe,os.X_OK)", True)} <= set(conds):
-            gok = True
+    gi = cands[0] if cands else ex
+    for f_ in cands:
+        gcfg = A.cfg(f_)
+        for n in [n for n in gcfg.nodes if n.kind == "return" and isinstance(n.stmt.value, ast.Name)]:
+            v_ = n.stmt.value.id
+            conds = set()
+            for e, p, _ in gcfg.guards(n):
+                for a, t in decompose_guard(e, p):
+                    conds.add((norm_stmt(a).replace(" ", ""), t))
+            if {(f"os.path.isabs({v_})", True), (f"os.path.isfile({v_})", True),
+                    (f"os.access({v_},os.X_OK)", True)} <= conds:
+                gok = True
+                gi = f_
     if gok:
         ctx.ok("C12.R4", "exe-guess", sample="cmdline[0] if absolute, regular and executable")
     else:
